@@ -50,6 +50,21 @@ func init() {
 		r := bitmap.Slice(a[0].U64s(), a[1].I32(), a[2].I32())
 		return U64s(bitmap.Slice(r, a[3].I32(), a[4].I32()))
 	}
+	Exec["bitmap.Slice/Rank64"] = func(a []V) string {
+		r := bitmap.Slice(a[0].U64s(), a[1].I32(), a[2].I32())
+		n, bit := bitmap.Rank64(r, bitmap.IndexRank64(r, a[3].Bool()), a[4].I32())
+		return L(I32(n), I32(bit))
+	}
+	Exec["bitmap.Slice/NextOne"] = func(a []V) string {
+		from, to := a[1].I32(), a[2].I32()
+		r := bitmap.Slice(a[0].U64s(), from, to)
+		return I32(bitmap.NextOne(r, a[3].I32(), to-from))
+	}
+	Exec["bitmap.Slice/PrevOne"] = func(a []V) string {
+		from, to := a[1].I32(), a[2].I32()
+		r := bitmap.Slice(a[0].U64s(), from, to)
+		return I32(bitmap.PrevOne(r, a[3].I32(), to-from))
+	}
 }
 
 func genC14Widen(g *Gen) {
@@ -208,5 +223,57 @@ func genC14Widen(g *Gen) {
 			c, d = 0, b-a
 		}
 		ss(ws, a, b, c, d, "sliceslice-rand")
+	}
+
+	// (8c) Rank64 / NextOne / PrevOne asked of a slice: sparse and dense bitmaps of 1..8 words, ranges with ends
+	// next to word boundaries, every kind of j (first, last, around the slice's word boundaries, random)
+	for k := 0; k < g.N(700, 12000); k++ {
+		nw := g.R.Range(1, 8)
+		ws := g.R.Words(nw)
+		if g.R.Intn(3) == 0 { // sparse: NextOne / PrevOne must skip empty words
+			for i := range ws {
+				if g.R.Intn(3) != 0 {
+					ws[i] = 0
+				}
+			}
+		}
+		n := 64 * nw
+		a := g.R.Intn(n)
+		if g.R.Intn(3) == 0 {
+			a = minInt(n-1, 64*g.R.Intn(nw)+g.R.Pick(0, 1, 63))
+		}
+		b := g.R.Range(a+1, n)
+		if g.R.Intn(3) == 0 {
+			b = n - g.R.Pick(0, 1, 63)
+			if b <= a {
+				b = a + 1
+			}
+		}
+		l := b - a
+		var j int
+		switch g.R.Intn(5) {
+		case 0:
+			j = 0
+		case 1:
+			j = l - 1
+		case 2:
+			j = minInt(l-1, 64*g.R.Intn((l+63)/64)+g.R.Pick(0, 1, 63))
+		default:
+			j = g.R.Intn(l)
+		}
+		key := c14SliceKey(ws, a, b)
+		if key != "" {
+			key = fmt.Sprintf("/j%s/%s", c13Off(j), key)
+		}
+		pre := func(p string) string {
+			if key == "" {
+				return ""
+			}
+			return p + key
+		}
+		g.Stat("slice-compose")
+		g.Do("bitmap.Slice/Rank64", L(U64s(ws), Int(a), Int(b), B(g.R.Bool()), Int(j)), pre("SR"))
+		g.Do("bitmap.Slice/NextOne", L(U64s(ws), Int(a), Int(b), Int(j)), pre("SN"))
+		g.Do("bitmap.Slice/PrevOne", L(U64s(ws), Int(a), Int(b), Int(j)), pre("SP"))
 	}
 }
